@@ -15,6 +15,7 @@
 package transport
 
 import (
+	"crypto/tls"
 	"encoding/binary"
 	"io"
 	"net"
@@ -190,6 +191,12 @@ func (p *conn) handshake() error {
 	if h.Proto != p.proto.Peer {
 		_ = p.c.Close()
 		return mangos.ErrBadProto
+	}
+	if tc, ok := p.c.(*tls.Conn); ok {
+		// A TLS connection shakes hands with the first exchange above.
+		// An accepted connection recorded its state before that, when
+		// it said nothing yet about the peer or the session.
+		p.options[mangos.OptionTLSConnState] = tc.ConnectionState()
 	}
 	p.Lock()
 	p.open = true
